@@ -534,6 +534,13 @@ def build_cases(g, ctx):
     return cases
 
 
+def errclass(err):
+    """coarse class of an oracle message (numbers removed) so that one defect gives one VIOLATION line per op kind"""
+    e = err.split(":", 1)[-1]
+    e = re.sub(r"(?<![A-Za-z])-?[0-9a-f]+(?![A-Za-z])", "", e)
+    return re.sub(r"[^A-Za-z]+", "_", e).strip("_")[:60]
+
+
 def spec_flag(expect, what):
     def f(cout):
         return None if cout == ("1" if expect else "0") else "%s returned %s, expected %d" % (what, cout, int(bool(expect)))
@@ -722,7 +729,7 @@ def run_level(ctx, lvl, exe, quick, cov):
             except (Q.OracleError, ValueError, ZeroDivisionError, IndexError) as e:
                 err = "%s: output unusable for the oracle (%s)" % (c.kind, e)
         if err and c.valid:
-            res["violations"].append(dict(key="C15:L%d:%s:%s" % (lvl, c.kind, re.sub(r"[^A-Za-z_ ]", "", err)[:60].strip().replace(" ", "_")),
+            res["violations"].append(dict(key="C15:L%d:%s:%s" % (lvl, c.kind, errclass(err)),
                                           found=True, what=err,
                                           replay=dict(level=lvl, op=c.line, c_output=co, model_output=mo, oracle=err, kind=c.kind,
                                                       meta={k: v for k, v in c.meta.items() if k in ("order", "N", "n", "O1", "O2")},
